@@ -138,6 +138,21 @@ def oracle(case, ctx):
             for t in reversed(ts):
                 p = t.inverse_transform(p)
             return p
+        if sp is spec and sp["kind"] == "stack":
+            # the final regressor is documented as never updated: the stacked forecast is that
+            # regressor applied to what each member must forecast now - members DO follow
+            # update_params (refitted on everything observed when it is True)
+            parts = [expected_forecast(update_params_last, m, fwd) for m in sp["members"]]
+            if any(p is None for p in parts):
+                return None
+            M = np.column_stack([p.to_numpy(dtype=float) for p in parts])
+            if float(np.max(np.abs(np.asarray(getattr(f.final_regressor_, "coef_", [0.0]), dtype=float)))) > 1e3:
+                # a regressor fitted on (nearly) collinear hold-out forecasts amplifies rounding
+                # differences between equal member forecasts: values not compared
+                ctx.label("stack_regressor_ill_conditioned")
+                return None
+            ctx.label("stack_values_modelled")
+            return pd.Series(np.asarray(f.final_regressor_.predict(M), dtype=float), index=parts[0].index)
         if pools.refits_on_update(sp) and model["params_current"]:
             g = pools.build_forecaster(sp)
             u = fwd(series_of(model))
